@@ -1023,6 +1023,180 @@ fn t_scratch(rng: &mut Rng, stats: &mut Stats) {
 	}
 }
 
+/// User code called by the crate may PANIC (a `BufRead` source, a `Write` sink, a `Serialize` impl): the unwind goes
+/// through the reader's / writer's / serializer's frames. Afterwards the object is dropped, or used again and then
+/// dropped; whatever it answers, no memory error may follow (no double drop, no use of something the unwind dropped).
+fn t_panics(rng: &mut Rng, stats: &mut Stats) {
+	use std::panic::{catch_unwind, AssertUnwindSafe};
+	struct PanicSource {
+		inner: std::io::BufReader<std::io::Cursor<Vec<u8>>>,
+		calls: std::rc::Rc<std::cell::Cell<u32>>,
+		panic_at: u32,
+		_canary: Box<u64>,
+	}
+	impl PanicSource {
+		fn tick(&mut self) {
+			self.calls.set(self.calls.get() + 1);
+			if self.calls.get() == self.panic_at {
+				panic!("MEMSIM-INJECTED source panic");
+			}
+		}
+	}
+	impl std::io::Read for PanicSource {
+		fn read(&mut self, buf: &mut [u8]) -> std::io::Result<usize> {
+			self.tick();
+			self.inner.read(buf)
+		}
+	}
+	impl std::io::BufRead for PanicSource {
+		fn fill_buf(&mut self) -> std::io::Result<&[u8]> {
+			self.tick();
+			self.inner.fill_buf()
+		}
+		fn consume(&mut self, n: usize) {
+			self.tick();
+			self.inner.consume(n)
+		}
+	}
+	struct PanicSink {
+		out: Vec<u8>,
+		calls: u32,
+		panic_at: u32,
+		_canary: Box<u64>,
+	}
+	impl std::io::Write for PanicSink {
+		fn write(&mut self, buf: &[u8]) -> std::io::Result<usize> {
+			self.calls += 1;
+			if self.calls == self.panic_at {
+				panic!("MEMSIM-INJECTED sink panic");
+			}
+			let n = buf.len().min(1 + (self.calls as usize * 7) % 13);
+			self.out.extend_from_slice(&buf[..n]);
+			Ok(n)
+		}
+		fn flush(&mut self) -> std::io::Result<()> {
+			Ok(())
+		}
+	}
+	// the injected panics are expected: keep them out of the log (everything else still prints)
+	static HOOK: std::sync::Once = std::sync::Once::new();
+	HOOK.call_once(|| {
+		let prev = std::panic::take_hook();
+		std::panic::set_hook(Box::new(move |info| {
+			if !info.to_string().contains("MEMSIM-INJECTED") {
+				prev(info)
+			}
+		}));
+	});
+	let ty = gen_small_schema(rng);
+	let env = Env::build(&ty);
+	let schema: Schema = ast::to_json(&ty).parse().unwrap_or_else(|e| mismatch!("schema rejected: {e}"));
+	let vals: Vec<Val> = (0..2 + rng.usize(5)).map(|_| gen_one(rng, &env, &ty)).collect();
+	let (codec, _) = pick_codec(rng);
+	if rng.chance(2, 3) {
+		// ---- a source that panics at its n-th call (any of read / fill_buf / consume), between or inside blocks
+		let file = make_file(&schema, &env, &ty, &vals, codec, rng);
+		drop(schema);
+		let cap = *rng.pick(&[1usize, 4, 16, 64, 8192]);
+		// how many calls does a clean run make?
+		let count_calls = {
+			let calls = std::rc::Rc::new(std::cell::Cell::new(0));
+			let src = PanicSource { inner: std::io::BufReader::with_capacity(cap, std::io::Cursor::new(file.clone())), calls: calls.clone(), panic_at: 0, _canary: Box::new(1) };
+			let mut reader = Reader::from_reader(src).unwrap_or_else(|e| mismatch!("from_reader: {e}"));
+			loop {
+				let ctx = CapCtx::new(&env);
+				match reader.deserialize_seed_next(Capture { ty: &ty, ctx: &ctx }) {
+					Ok(Some(_)) => {}
+					Ok(None) => break,
+					Err(e) => mismatch!("clean read failed: {e}"),
+				}
+			}
+			drop(reader);
+			calls.get()
+		};
+		let panic_at = 1 + rng.below(count_calls.max(1) as u64) as u32;
+		stats.op("panic:source");
+		let src = PanicSource { inner: std::io::BufReader::with_capacity(cap, std::io::Cursor::new(file.clone())), calls: Default::default(), panic_at, _canary: Box::new(2) };
+		let built = catch_unwind(AssertUnwindSafe(|| Reader::from_reader(src)));
+		let mut reader = match built {
+			Ok(Ok(r)) => r,
+			Ok(Err(e)) => mismatch!("from_reader: {e}"),
+			Err(_) => {
+				stats.op("panic:source:during-construction");
+				return;
+			}
+		};
+		let mut got: Vec<Val> = vec![];
+		let mut panicked = false;
+		for _ in 0..vals.len() + 3 {
+			let r = catch_unwind(AssertUnwindSafe(|| {
+				let ctx = CapCtx::new(&env);
+				reader.deserialize_seed_next(Capture { ty: &ty, ctx: &ctx }).map_err(|e| e.to_string())
+			}));
+			match r {
+				Ok(Ok(Some(v))) => got.push(v),
+				Ok(Ok(None)) => break,
+				Ok(Err(_)) => {}
+				Err(_) => {
+					panicked = true;
+					stats.op("panic:source:unwound-through-reader");
+					if rng.bool() {
+						stats.op("panic:source:reader-dropped-right-after");
+						break;
+					}
+					stats.op("panic:source:reader-used-again");
+				}
+			}
+		}
+		if !panicked {
+			mismatch!("the source was to panic at call {panic_at} of {count_calls} but no panic came out");
+		}
+		// values handed out BEFORE the panic are genuine; nothing is claimed about those after it
+		drop(reader);
+	} else {
+		// ---- a sink that panics at its n-th write
+		stats.op("panic:sink");
+		let clean = make_file(&schema, &env, &ty, &vals, codec, rng);
+		let panic_at = 1 + rng.below(4 + clean.len() as u64 / 6) as u32;
+		let mut config = SerializerConfig::new(&schema);
+		config.allow_slow_sequence_to_bytes();
+		let sink = PanicSink { out: vec![], calls: 0, panic_at, _canary: Box::new(3) };
+		let built = catch_unwind(AssertUnwindSafe(|| WriterBuilder::new(&mut config).compression(codec).approx_block_size(*rng.pick(&[0u32, 16, 64 * 1024])).build(sink)));
+		let mut w = match built {
+			Ok(Ok(w)) => w,
+			Ok(Err(e)) => mismatch!("writer build failed: {e}"),
+			Err(_) => {
+				stats.op("panic:sink:during-construction");
+				return;
+			}
+		};
+		let mut unwound = false;
+		for v in &vals {
+			let r = catch_unwind(AssertUnwindSafe(|| {
+				let ctx = PresCtx::new(&env, PresCfg::plain(), None);
+				w.serialize(Presented::new(v, &ty, &ctx)).map_err(|e| e.to_string())
+			}));
+			if r.is_err() {
+				unwound = true;
+				stats.op("panic:sink:unwound-through-writer");
+				if rng.bool() {
+					break;
+				}
+			}
+		}
+		let r = catch_unwind(AssertUnwindSafe(move || match rng_bool_static(unwound) {
+			true => drop(w.into_inner()),
+			false => drop(w),
+		}));
+		if r.is_err() {
+			stats.op("panic:sink:unwound-through-writer-drop");
+		}
+	}
+}
+fn rng_bool_static(b: bool) -> bool {
+	b
+}
+
 /// several threads use one schema at once; results must equal the sequential ones
 fn t_threads(rng: &mut Rng, stats: &mut Stats) {
 	let ty = gen_small_schema(rng);
@@ -1128,13 +1302,14 @@ fn main() {
 		let mut rng = Rng::for_run(seed, "C10", i);
 		let t = match mode {
 			"threads-only" => 5,
-			"no-threads" => match rng.below(10) {
+			"no-threads" => match rng.below(12) {
 				5 => 7,
 				6 | 7 => 9,
 				8 | 9 => 11,
+				10 | 11 => 13,
 				x => x,
 			},
-			_ => rng.below(13),
+			_ => rng.below(15),
 		};
 		let name = match t {
 			0 => {
@@ -1168,6 +1343,10 @@ fn main() {
 			11 | 12 => {
 				t_scratch(&mut rng, &mut stats);
 				"scratch-buffer"
+			}
+			13 | 14 => {
+				t_panics(&mut rng, &mut stats);
+				"panics"
 			}
 			_ => {
 				t_threads(&mut rng, &mut stats);
